@@ -576,6 +576,90 @@ theorem lenient_bool_refuted (s : AddSeen) : (parseClauses qAddpBad [] (some s))
     simp [parseClauses, h1, h2]
   rw [h]; rfl
 
+/-- **all add clauses together, for every add request** (gate, answered, single document, fail-closed, faithful, options
+    exact): the model's answer satisfies `addHolds` — whatever the credentials, body, query, metadata and cluster answer —
+    under ONE hypothesis, which is the recorded finding K24 itself: an accepted request is not one the adder rejects late
+    (broken multipart body, unknown chunker / hash word, `format=car` or `nocopy=true` with an inline plain file, a CID version
+    other than 0 / 1), where the answer is 200 + trailer (or 500) instead of 4xx (`add_K24_witness` shows the clause really
+    fails there). -/
+theorem add_model_holds (r : AddReq)
+    (hK : ∀ p, addAuthorized r = true → r.mp ≠ .none → hasGarbled r.query = false → addParams r.query r.md = some p →
+      lateFailure r p = false) :
+    addHolds r (addHandle r) = true := by
+  by_cases ha' : addAuthorized r = false
+  · have h401 : addHandle0 r = { status := 401, body := .docs 1, trailer := false, root := none, ops := [] } := by
+      unfold addHandle0
+      have : (r.creds && r.auth != .right) = true := by
+        unfold addAuthorized at ha'
+        cases hc : r.creds <;> cases hau : r.auth <;> simp_all
+      simp [this]
+    simp [addHolds, addClauses, ha', addHandle, h401]
+  · have ha : addAuthorized r = true := by simpa using ha'
+    by_cases hrefuse : r.mp = .none ∨ hasGarbled r.query = true ∨ addParams r.query r.md = none
+    · obtain ⟨hs, hb, ho⟩ := add_parse_refused r ha hrefuse
+      have hmal : addMalformed r = true := by
+        rcases hrefuse with h | h | h
+        · simp [addMalformed, h]
+        · simp [addMalformed, h]
+        · exact addMalformed_of_refused r h
+      simp [addHolds, addClauses, ha, hmal, hs, hb, ho, is4xx]
+    · simp only [not_or] at hrefuse
+      obtain ⟨hmn, hg, hpn⟩ := hrefuse
+      have hg' : hasGarbled r.query = false := by simpa using hg
+      obtain ⟨p, hp⟩ := Option.ne_none_iff_exists'.mp hpn
+      have hl := hK p ha hmn hg' hp
+      have hm : r.mp = .ok := by
+        have : (r.mp == .junk) = false := by
+          simp only [lateFailure, Bool.or_eq_false_iff] at hl; exact hl.1.1.1.1.1
+        cases hx : r.mp <;> simp_all
+      have hmal := addMalformed_of_accepted r p hm hg' hp hl
+      have hna : (r.creds && r.auth != .right) = false := by
+        unfold addAuthorized at ha
+        cases hc : r.creds <;> cases hau : r.auth <;> simp_all
+      obtain ⟨_, _, hstream⟩ := addParams_fields hp
+      by_cases hr : r.rpc = .ok
+      · obtain ⟨w, hw⟩ : ∃ w, carried r.query r.md = some w := by
+          cases hcc : carried r.query r.md with
+          | none => simp [addMalformed, hcc] at hmal
+          | some w => exact ⟨w, rfl⟩
+        have hf := add_faithful r ha hm p hg' hp hl hr w hw
+        have hle : leafExact r.query (addHandle r).leaf = true := leafExact_addHandle0 r p hg' hp
+        have hst : (addHandle r).status = 200 ∧ (addHandle r).body = .docs 1 ∧ (addHandle r).ops ≠ [] := by
+          show (addHandle0 r).status = 200 ∧ (addHandle0 r).body = .docs 1 ∧ (addHandle0 r).ops ≠ []
+          unfold addHandle0
+          simp [hna, hm, hg', hp, hl, hr]
+        obtain ⟨h1, h2, _⟩ := hst
+        simp only [addHolds, addClauses, ha, hmal, hr, hf, hle, h1, h2]
+        cases addStreams r <;> simp
+      · have hr' : (r.rpc != .ok) = true := by simpa using hr
+        have hst : addHandle0 r = errorAnswer p [⟨"Cluster.BlockAllocate", .path "" (addOpts p)⟩] := by
+          unfold addHandle0
+          simp [hna, hm, hg', hp, hl, hr']
+        have hps : p.stream = addStreams r := by
+          unfold addStreams
+          generalize getq r.query "stream-channels" = v at hstream
+          cases v with
+          | valid x =>
+            cases x with
+            | bool b => simp only [boolParam, Option.some.injEq] at hstream; subst hstream; generalize p.stream = s; cases s <;> decide
+            | _ => simp [boolParam] at hstream
+          | empty => simp only [boolParam, Option.some.injEq] at hstream; rw [← hstream]; decide
+          | _ => simp [boolParam] at hstream
+        have hrn : (r.rpc == .ok) = false := by simpa using hr
+        cases hs : addStreams r <;>
+          simp [addHolds, addClauses, ha, hmal, hrn, hr, addHandle, hst, errorAnswer, hps, hs]
+
+/-- the hypothesis of `add_model_holds` is met by every request whose query the adder accepts; e.g. these -/
+def addReqOk : AddReq := { creds := true, auth := .right, mp := .ok, query := qAddpOk, md := [(1, 2)], rpc := .ok }
+example : ∀ p, addParams addReqOk.query addReqOk.md = some p → lateFailure addReqOk p = false := by
+  intro p hp
+  have : addParams addReqOk.query addReqOk.md = some ((addParams addReqOk.query addReqOk.md).get (by decide)) := by simp
+  rw [this] at hp; cases hp; decide
+example : addHolds addReqOk (addHandle addReqOk) = true ∧ (addHandle addReqOk).ops.length = 3 := by decide
+example : addHolds { addReqOk with rpc := .err, query := [("stream-channels", .valid (.bool false))] }
+    (addHandle { addReqOk with rpc := .err, query := [("stream-channels", .valid (.bool false))] }) = true := by decide
+example : addHolds { addReqOk with query := qAddpBad } (addHandle { addReqOk with query := qAddpBad }) = true := by decide
+
 /-! ### the full statement (server side) now holds of the model -/
 
 /-- the property of the server request path with no deviation excluded -/
